@@ -8,11 +8,22 @@ as that integer (`Fx`, "degree 1"); products of k coordinates are integers at sc
 ("degree k").  Tolerances are rational constants multiplied out, so every comparison is an exact
 integer comparison.
 
-Tolerances (from the property text / DESIGN.md 7, C15), with S = largest |coordinate| in the mesh:
-  unit normal        | |n|² − 1 | ≤ 2·10⁻³
-  coincident         |a − b| ≤ 10⁻⁴·S                (vertices merged for the topological checks)
-  degenerate face    two merged corners equal, or |(b−a)×(c−a)| ≤ 10⁻⁷·S²
-  on surface         distance to the ideal surface ≤ 10⁻³·S
+Tolerances (from the property text / DESIGN.md 7, C15).  Everything except the normal length is
+RELATIVE to the size of the solid, so that a solid of radius 10⁻⁶ or 10⁶ is judged like one of
+radius 1; the lathe solids have a fixed height 2 whatever their radius, therefore sizes are taken
+per axis: Sx, Sy, Sz = largest |x|, |y|, |z| in the mesh, S = max of the three.
+  unit normal        | |n|² − 1 | ≤ 2·10⁻³  (|‖n‖ − 1| ≤ 10⁻³), absolute, whatever the size
+  coincident         |ax − bx| ≤ 10⁻⁴·Sx and |ay − by| ≤ 10⁻⁴·Sy and |az − bz| ≤ 10⁻⁴·Sz
+                     (vertices merged for the topological checks)
+  degenerate face    two merged corners equal, or the corners collinear:
+                     |(b−a)×(c−a)| ≤ 10⁻⁹·|b−a|·|c−a|  (far below f32 resolution: a cylinder of
+                     radius 10⁻⁶ and height 2 consists of needle faces with sine 5·10⁻⁷, which are
+                     faces of the solid, not degenerate ones)
+  on surface         radial distance to the ideal surface ≤ max(10⁻³·size, 2⁻²⁰·S) with size the
+                     solid's own radius (sphere, capsule, tube of the torus, larger cone radius,
+                     widest profile point); heights within max(10⁻³·Sy, 2⁻²⁰·S); box faces within
+                     10⁻³ of the extent of their axis.  (2⁻²⁰·S: a few ulps of the coordinates –
+                     a capsule of radius 10⁻⁶ around y = ±1 cannot be represented more finely.)
 -/
 import Retro.Basic
 
@@ -49,9 +60,14 @@ structure Mesh where
   faces : Array (Nat × Nat × Nat)
   deriving Inhabited
 
-/-- S: largest absolute coordinate (degree 1), at least 1 ulp to avoid a zero scale. -/
+/-- (Sx, Sy, Sz): largest absolute coordinate per axis (degree 1), at least 1 ulp each. -/
+def axisScales (m : Mesh) : I3 :=
+  m.verts.foldl (fun s v => (max s.1 (iabs v.p.1), max s.2.1 (iabs v.p.2.1), max s.2.2 (iabs v.p.2.2))) (1, 1, 1)
+
+/-- S: largest absolute coordinate. -/
 def scaleOf (m : Mesh) : Int :=
-  m.verts.foldl (fun s v => max s (max (iabs v.p.1) (max (iabs v.p.2.1) (iabs v.p.2.2)))) 1
+  let s := axisScales m
+  max s.1 (max s.2.1 s.2.2)
 
 def indicesValid (m : Mesh) : Bool :=
   m.faces.all fun (a, b, c) => a < m.verts.size && b < m.verts.size && c < m.verts.size
@@ -60,14 +76,14 @@ def indicesValid (m : Mesh) : Bool :=
 def unitNormal (n : I3) : Bool :=
   1000 * iabs (dot3 n n - one * one) ≤ 2 * one * one
 
-/-- `|a − b| ≤ 10⁻⁴·S`  ⇔  `10⁸·|a−b|² ≤ S²`. -/
-def coincident (s : Int) (a b : I3) : Bool :=
+/-- Per axis `|a − b| ≤ 10⁻⁴·S_axis`. -/
+def coincident (s : I3) (a b : I3) : Bool :=
   let d := sub3 a b
-  100000000 * dot3 d d ≤ s * s
+  10000 * iabs d.1 ≤ s.1 && 10000 * iabs d.2.1 ≤ s.2.1 && 10000 * iabs d.2.2 ≤ s.2.2
 
 /-- Representative of each vertex: that of the first earlier vertex it coincides with, else itself.
 (Quadratic; the meshes have a few hundred vertices.) -/
-def representatives (m : Mesh) (s : Int) : Array Nat := Id.run do
+def representatives (m : Mesh) (s : I3) : Array Nat := Id.run do
   let mut rep : Array Nat := Array.mkEmpty m.verts.size
   for i in [0:m.verts.size] do
     let pi := m.verts[i]!.p
@@ -82,31 +98,35 @@ def faceNormal (m : Mesh) (f : Nat × Nat × Nat) : I3 :=
   let a := m.verts[f.1]!.p
   cross3 (sub3 m.verts[f.2.1]!.p a) (sub3 m.verts[f.2.2]!.p a)
 
-/-- Degenerate: two merged corners equal, or `|cross| ≤ 10⁻⁷·S²` ⇔ `10¹⁴·|cross|² ≤ S⁴`. -/
-def degenerate (m : Mesh) (rep : Array Nat) (s : Int) (f : Nat × Nat × Nat) : Bool :=
+/-- Degenerate: two merged corners equal, or the corners collinear,
+`|cross| ≤ 10⁻⁹·|b−a|·|c−a|` ⇔ `10¹⁸·|cross|² ≤ |b−a|²·|c−a|²` (scale-free). -/
+def degenerate (m : Mesh) (rep : Array Nat) (f : Nat × Nat × Nat) : Bool :=
   let ra := rep[f.1]!
   let rb := rep[f.2.1]!
   let rc := rep[f.2.2]!
-  let c := faceNormal m f
-  ra == rb || rb == rc || ra == rc || 100000000000000 * dot3 c c ≤ s * s * s * s
+  let a := m.verts[f.1]!.p
+  let e1 := sub3 m.verts[f.2.1]!.p a
+  let e2 := sub3 m.verts[f.2.2]!.p a
+  let c := cross3 e1 e2
+  ra == rb || rb == rc || ra == rc || 1000000000000000000 * dot3 c c ≤ dot3 e1 e1 * dot3 e2 e2
 
 /-- Every vertex normal lies strictly on the side of the geometric normal of every
 non-degenerate face that uses it. Returns the first offending (face, corner). -/
-def wrongSide (m : Mesh) (rep : Array Nat) (s : Int) : Option (Nat × Nat) := Id.run do
+def wrongSide (m : Mesh) (rep : Array Nat) : Option (Nat × Nat) := Id.run do
   for k in [0:m.faces.size] do
     let f := m.faces[k]!
-    if !degenerate m rep s f then
+    if !degenerate m rep f then
       let c := faceNormal m f
       for v in [f.1, f.2.1, f.2.2] do
         if dot3 m.verts[v]!.n c ≤ 0 then return some (k, v)
   return none
 
 /-- Directed edges (over representatives) of the non-degenerate faces, as keys `a·V + b`. -/
-def directedEdges (m : Mesh) (rep : Array Nat) (s : Int) : Array Nat := Id.run do
+def directedEdges (m : Mesh) (rep : Array Nat) : Array Nat := Id.run do
   let nv := m.verts.size
   let mut es : Array Nat := #[]
   for f in m.faces do
-    if !degenerate m rep s f then
+    if !degenerate m rep f then
       let a := rep[f.1]!
       let b := rep[f.2.1]!
       let c := rep[f.2.2]!
@@ -145,9 +165,9 @@ def eulerChar (nv : Nat) (edges : Array Nat) : Int :=
 
 /-- Six times the signed volume, Σ a·(b×c) (degree 3): positive iff the consistently wound closed
 surface has its geometric normals pointing outwards. -/
-def signedVolume6 (m : Mesh) (rep : Array Nat) (s : Int) : Int :=
+def signedVolume6 (m : Mesh) (rep : Array Nat) : Int :=
   m.faces.foldl (fun acc f =>
-    if degenerate m rep s f then acc
+    if degenerate m rep f then acc
     else acc + dot3 m.verts[f.1]!.p (cross3 m.verts[f.2.1]!.p m.verts[f.2.2]!.p)) 0
 
 /-! ### Distance-to-surface tests without square roots -/
@@ -172,8 +192,19 @@ inductive Shape where
   | rings (secs nPoints : Nat) (prof : Array (Int × Int))   -- lathe of a polyline: (x, y) per ring
   deriving Inhabited
 
-/-- Is vertex `k` (position `p`) on the intended surface, to within `t` (degree 1)? -/
-def onSurface (sh : Shape) (t : Int) (_k : Nat) (p : I3) : Bool :=
+/-- The solid's own radial size (degree 1), to which the on-surface tolerance is relative. -/
+def Shape.size : Shape → Int
+  | .unitSphere => one
+  | .box _ _ => one
+  | .sphere r => r
+  | .torus _ r => r
+  | .cone base apex => max base apex
+  | .capsule r => r
+  | .rings _ _ prof => prof.foldl (fun s xy => max s (iabs xy.1)) 0
+
+/-- Is the position `p` on the intended surface: radially to within `t`, in height to within `ty`
+(both degree 1)? -/
+def onSurface (sh : Shape) (t ty : Int) (p : I3) : Bool :=
   match sh with
   | .unitSphere => nearSqrt (dot3 p p) one t
   | .sphere r => nearSqrt (dot3 p p) r t
@@ -187,7 +218,7 @@ def onSurface (sh : Shape) (t : Int) (_k : Nat) (p : I3) : Bool :=
     -- 2ρ·one = 2·base·one + (apex − base)(y + one)   (degree 2)
     let rho2 := 2 * base * one + (apex - base) * (p.2.1 + one)
     let d2 := p.1 * p.1 + p.2.2 * p.2.2
-    iabs p.2.1 ≤ one + t &&
+    iabs p.2.1 ≤ one + ty &&
       -- |√d2 − ρ| ≤ t  ⇔  |√(4·one²·d2) − 2ρ·one| ≤ 2t·one
       nearSqrt (4 * one * one * d2) (iabs rho2) (2 * t * one)
   | .capsule r =>
@@ -196,7 +227,7 @@ def onSurface (sh : Shape) (t : Int) (_k : Nat) (p : I3) : Bool :=
     if h ≤ 0 then nearSqrt d2 r t else nearSqrt (d2 + h * h) r t
   | .rings _ _ prof =>
     -- on the circle swept by some profile point (no assumption on the vertex order)
-    prof.any fun (x, y) => iabs (p.2.1 - y) ≤ t && nearSqrt (p.1 * p.1 + p.2.2 * p.2.2) (iabs x) t
+    prof.any fun (x, y) => iabs (p.2.1 - y) ≤ ty && nearSqrt (p.1 * p.1 + p.2.2 * p.2.2) (iabs x) t
 
 /-- All eight corners of the box occur among the vertices. -/
 def boxCornersPresent (m : Mesh) (l r : I3) : Bool :=
